@@ -328,10 +328,10 @@ CHECKS = {
         assumptions=["4-byte word granularity of the stream and of gaps (DMA words)", "card device number 0", "the first 60 reads deliver at least 4 frames (StartRun gives up after 100 empty reads)"],
     ),
     "C19": dict(
-        rule_more='(R) also reads the stored channel-group report ($HOME/.dastard/channels.json) after every Start: valid JSON, equal to the groups of the STATUS message. (R) every second round sends a ConfigureLanceroSource request while the Start is sampling the card (refused).',
-        pkg=".", hdir="root", test="TestVerif_C19R?", ids=["C19", "C19R"], wal=True,
-        quick=dict(shards=16, checks=1, per_test={"TestVerif_C19": 6000, "TestVerif_C19R": 25}, timeout=900),
-        thorough=dict(shards=16, checks=1, per_test={"TestVerif_C19": 90000, "TestVerif_C19R": 800}, timeout=5400),
+        rule_more='(R) also reads the stored channel-group report ($HOME/.dastard/channels.json) after every Start: valid JSON, equal to the groups of the STATUS message. (R) every second round sends a ConfigureLanceroSource request while the Start is sampling the card (refused). (T) the simulated sources behind the real SourceControl: 1-4 Configure requests, accepted and refused (too slow a buffer, no channels), then Start: the identity tables of the run must have one entry per running channel, distinct, with row/column codes of a geometry that holds them, and STATUS must report that many channels; then WriteControl START/STOP.',
+        pkg=".", hdir="root", test="TestVerif_C19[RT]?", ids=["C19", "C19R", "C19T"], wal=True,
+        quick=dict(shards=16, checks=1, per_test={"TestVerif_C19": 6000, "TestVerif_C19R": 25, "TestVerif_C19T": 60}, timeout=900),
+        thorough=dict(shards=16, checks=1, per_test={"TestVerif_C19": 90000, "TestVerif_C19R": 800, "TestVerif_C19T": 2500}, timeout=5400),
         technique="property-based testing (rapid): validity predicates over the identity tables of every accepted configuration + decoded file headers of a real START/STOP cycle",
         rule="(R) what clients are told: the real SourceControl configures and starts its Lancero source (one in-memory card, 1-2 columns x 2-4 rows) "
              "2-4 times in a row with generated first-row numbers and column separations, often with an unchanged number of channels; after every "
